@@ -171,6 +171,8 @@ class ScheduledTraceEvent(AppTraceEvent):
 
     @property
     def event_data(self):
+        if self.why is None:
+            return '%s' % self.where
         return '%s:%s' % (self.where, self.why)
 
 
